@@ -352,3 +352,30 @@ Example ex_chain :
   state nat (run_chain nat (api_chain nat true "adm" ["u1"] "Bearer u1" false h) (init_ctx nat 5)) = 6 /\
   resp nat (run_chain nat (api_chain nat true "adm" ["u1"] "Bearer zz" false h) (init_ctx nat 5)) = Some ErrInvalidAccessToken.
 Proof. vm_compute. repeat split; reflexivity. Qed.
+
+(* ---- token store failing: the decision fails closed ---- *)
+Theorem store_failure_fails_closed : forall admin st wrapped hdr,
+  decide true admin (visible false st) wrapped hdr = Reached ->
+  hdr = "Bearer " ++ admin /\ no_spaceb admin = true.
+Proof.
+  intros admin st wrapped hdr H. unfold visible in H. destruct wrapped.
+  - apply admin_routes in H. exact H.
+  - apply decide_plain_iff in H. destruct H as [t [Hh [Hn [Ht | []]]]]. subst. split; [reflexivity | exact Hn].
+Qed.
+
+Theorem store_failure_admits_no_more : forall admin st wrapped hdr,
+  decide true admin (visible false st) wrapped hdr = Reached -> decide true admin st wrapped hdr = Reached.
+Proof.
+  intros admin st wrapped hdr H. apply store_failure_fails_closed in H. destruct H as [Hh Hn].
+  destruct wrapped.
+  - apply admin_routes. split; assumption.
+  - apply decide_plain_iff. exists admin. split; [exact Hh | split; [exact Hn | left; reflexivity]].
+Qed.
+
+Theorem store_failure_admin_still_admin : forall admin st wrapped,
+  no_spaceb admin = true -> decide true admin (visible false st) wrapped ("Bearer " ++ admin) = Reached.
+Proof.
+  intros admin st wrapped Hn. destruct wrapped.
+  - apply admin_routes. split; [reflexivity | exact Hn].
+  - apply decide_plain_iff. exists admin. split; [reflexivity | split; [exact Hn | left; reflexivity]].
+Qed.
